@@ -9,7 +9,20 @@ import engine
 import streams
 from common import PY, VERIF
 
-THEOREMS = ["LNN.C10_addg_perm", "LNN.C10_addData_comm", "LNN.C10_load_perm", "LNN.C10_mergeB_comm_assoc"]
+THEOREMS = ["LNN.C10_addg_perm",
+            "LNN.C10_addg_set",
+            "LNN.C10_addData_comm",
+            "LNN.C10_load_perm",
+            "LNN.C10_mergeB_comm_assoc",
+            "LNN.C10_mergeAll_perm",
+            "LNN.C10_writeMerged_perm",
+            "LNN.C10_foj_congr",
+            "LNN.C10_foldJoin_congr",
+            "LNN.C10_groundings_congr",
+            "LNN.C10_fUpConn_congr",
+            "LNN.C10_fUpNot_congr",
+            "LNN.C10_fDownNot_congr",
+            "LNN.C10_perm_TEq"]
 MODULES = ["LnnVerif.Props.C10"]
 
 
